@@ -11,7 +11,7 @@ CHECKS = {
  "C02": ("exploration", "FinalizeToken(s) on honest, corrupted and foreign responses: every single-bit flip of each honest response (exhaustive), full state x response cross-pairing, type-5 drops/duplications/swaps/extra elements/foreign proofs, interleaved lifecycles of up to 4 outstanding requests, odd salt lengths, one client object reused across keys with colliding truncated ids; universal oracle (nil error => token valid under the request's key and bound to the request) plus the rejection list of the statement",
          "trusted: circl, crypto/rsa; per-class counters (decode / proof / count / AEAD / RSA) must all be observed",
          "runtime monitoring: universal post-condition oracle + must-reject corpus (exhaustive bit flips)"),
- "C03": ("exploration", "every byte-consuming entry point under structure-aware hostile inputs (truncations, extensions, every length/count field and varint form up to 2^62-1, type tags, splices, well-framed hostile content, HPKE-sealed hostile inner requests, hostile key/scalar arguments); each call journalled before it is made, run in child processes under RLIMIT_AS with a CPU-time stall watchdog and a calibrated allocation bound; followed by a coverage-guided stage (Go native fuzzing over the same entry points and oracle, 40 000 / 4 000 000 executions)",
+ "C03": ("exploration", "every byte-consuming entry point under structure-aware hostile inputs (truncations, extensions, every length/count field and varint form up to 2^62-1, type tags, splices, well-framed hostile content, HPKE-sealed hostile inner requests, correctly encrypted type-3 responses with hostile plaintext (every short length, over-long, >= N), hostile key/scalar arguments); each call journalled before it is made, run in child processes under RLIMIT_AS with a CPU-time stall watchdog and a calibrated allocation bound; followed by a coverage-guided stage (Go native fuzzing over the same entry points and oracle, 40 000 / 4 000 000 executions)",
          "trusted: Go runtime metrics (/gc/heap/allocs:bytes); struct-level hostility limited to shapes the wire decoders can produce",
          "runtime monitoring: crash/allocation/termination monitor with journalled child-process workers + coverage-guided fuzzing stage"),
  "C04": ("exploration", "value round trips, accepted-bytes oracle (canonical re-encoding no longer, same value, equals Marshal also on reused objects) and type separation (every 16-bit tag x body x decoder, exhaustive) against the harness's own encoders/parsers; Rust interop vectors as independent encodings; followed by a coverage-guided stage (Go native fuzzing: arbitrary bytes to every decoder, accepted-bytes oracle on every acceptance, 40 000 / 4 000 000 executions)",
@@ -23,13 +23,13 @@ CHECKS = {
  "C06": ("exploration", "attester VerifyRequest on honest requests (pat-go client and harness-built), exhaustive single-bit flips of every field, forged/foreign/degenerate signatures, tampering after Marshal on decoded objects and after the original was accepted by the same attester, wrong/shifted blinds, malformed keys; accept iff crypto/ecdsa.Verify and reference key blinding agree; recording cache + state snapshots show a rejected request changes nothing",
          "trusted: crypto/ecdsa, crypto/elliptic, the reference hash_to_field (internal/ref); verif-tagged VerifSnapshot hook",
          "runtime monitoring: independent accept/reject oracle + state-snapshot invariant at the cache hook"),
- "C07": ("exploration", "issuer Evaluate(bytes) on requests built by pat-go's client and entirely by the harness (own encoder, HPKE sealing, key-blinded signer): honest ones must be served and finalize to a valid token; exhaustive bit flips, truncations, missing signature, near-miss origins, foreign name keys, re-signing, request-key swap (AAD binding), AAD variants, truncated inner requests must be refused with no response",
+ "C07": ("exploration", "issuer Evaluate(bytes) on requests built by pat-go's client and entirely by the harness (own encoder, HPKE sealing, key-blinded signer): honest ones must be served and finalize to a valid token; exhaustive bit flips, truncations, missing signature, near-miss origins, foreign name keys, re-signing, request-key swap (AAD binding), AAD variants, truncated inner requests, and origins whose registration failed under an injected entropy fault must be refused with no response",
          "acceptance is fixed by construction (the HPKE private key is not observable); trusted: go-hpke, circl blindrsa, crypto/ecdsa",
          "runtime monitoring: must-serve / must-reject corpus built by an independent request constructor"),
  "C08": ("exploration", "full rate-limited flows for 4 clients x 4 origins (two sharing an index key) x repeated requests with edge blinds, on fresh and on long-lived attesters, with retained IDs re-checked and an adversarial negated-key twin; every index equals the reference HKDF-SHA-384 over the reference-blinded client key, Evaluate's second value equals the reference-blinded request key, distinct pairs differ, shared keys coincide",
          "trusted: crypto/elliptic, crypto/hmac, SHA-2; reference XMD/HKDF in internal/ref",
          "runtime monitoring: reference-model oracle over repeated protocol runs"),
- "C09": ("exploration", "every attester call history of length <= 4 / <= 5 over 14 operations (2 clients x 2 issuer IDs x 2 anonymous IDs; honest, bad-signature and foreign-request verify) plus seeded 200-step histories, replayed against an executable model with the binding map compared after every step through the snapshot hook",
+ "C09": ("exploration", "every attester call history of length <= 4 / <= 5 over 14 operations (2 clients x 2 issuer IDs x 2 anonymous IDs; honest, bad-signature and foreign-request verify), every history of length <= 5 / <= 6 over 7 operations including finalization under never-verified client key bytes (uncompressed encoding of a verified client's point), plus seeded 200-step histories, replayed against an executable model with the binding map compared after every step through the snapshot hook",
          "histories are sequential; verif-tagged VerifSnapshot hook",
          "runtime monitoring: online trace checker against an executable model (exhaustive short histories)"),
  "C10": ("exploration", "issuer Verify of types 1 and 5 on honest tokens, exhaustive single-bit flips of every field, truncated/extended authenticators, every token against every other key and type, recomputed authenticators for changed types and shifted field boundaries, hostile field lengths; accept iff authenticator == circl FullEvaluate over the fields as carried",
@@ -44,16 +44,16 @@ CHECKS = {
  "C13": ("fault_enumeration", "differential against crypto/ecdsa over (r,s) class products, constructed wrapped-r signatures, digest lengths and DER corruptions (exhaustive bit flips/truncations of a valid DER per curve, seeded strings); producer cross-verification; GenerateKey and all signing entry points under a scripted entropy reader failing permanently at every position 0..need+1 in four chunkings",
          "trusted: crypto/ecdsa of the building toolchain; failing reads deliver no bytes and failures are permanent",
          "runtime monitoring: differential oracle + exhaustive entropy-fault enumeration"),
- "C14": ("fault_enumeration", "byte-for-byte differential against crypto/ed25519 for keys and signatures, verdict differential on small-order / non-canonical / S+kL / bit-flipped / forged inputs, GenerateKey under identical scripted readers at every fault position; operation-level comparison of the fork's scalar and point arithmetic with a math/big Edwards model through verif-tagged hooks",
+ "C14": ("fault_enumeration", "byte-for-byte differential against crypto/ed25519 for keys and signatures, verdict differential on small-order / non-canonical / S+kL / bit-flipped / forged / identity-key high-S inputs, a verification as the very first operation of every worker process, GenerateKey under identical scripted readers at every fault position; operation-level comparison of the fork's scalar and point arithmetic with a math/big Edwards model through verif-tagged hooks",
          "trusted: crypto/ed25519; the math/big model (internal/ref/edwards.go), itself cross-checked against crypto/ed25519 in every run",
          "runtime monitoring: differential oracle + reference-model checks at hooks + entropy-fault enumeration"),
  "C15": ("exploration", "Ed25519 key blinding over seeds x blinds (incl. all-zero/all-ones, pool pairs) x contexts x messages: blinded key equals SHA-512-derived scalar times A in the math/big model, deterministic signatures verify under crypto/ed25519 and the fork and not under the original key, unblind inverts, blindings commute, blind/context separation",
          "trusted: crypto/ed25519, crypto/sha512, the math/big Edwards model",
          "runtime monitoring: reference-model and algebraic-law oracle"),
- "C16": ("exploration", "every exported operation with byte-slice arguments called with each argument in its own canary arena (spare capacity 0/1/7/64, three fills): arenas unchanged, deterministic results independent of the fill; all ordered pairs and seeded longer sequences of operations per object type (client states, issuers, batch issuer, reused request objects) with every earlier handed-out value re-checked after each call",
+ "C16": ("exploration", "every exported operation with byte-slice arguments called with each argument in its own canary arena (spare capacity 0/1/7/64, three fills): arenas unchanged, deterministic results independent of the fill; all ordered pairs and triples (quadruples for reused request objects and in the thorough tier) and seeded longer sequences of operations per object type, including the caller writing into a token it was given, (client states, issuers, batch issuer, reused request objects) with every earlier handed-out value re-checked after each call",
          "quicwire.Append* may write into destination spare capacity by contract; decoders may alias their input",
          "runtime monitoring: canary/snapshot monitors on argument arenas and on previously returned values"),
- "C17": ("exploration", "race-detector build: fresh issuer/key objects used by 16/32 goroutines from a barrier with per-goroutine arguments, all read operations mixed, repeated per kind with kinds rotated over worker processes; zero race reports (de-duplicated by outermost pat-go frames) and per-call sequential-result oracles",
+ "C17": ("exploration", "race-detector build: fresh issuer/key objects used by 16/32 goroutines from a barrier with per-goroutine arguments, all read operations mixed (keys on several curves at once, dense signing bursts, unknown key ids in batches, first use of package-level tables inside the goroutines), repeated per kind with kinds rotated over worker processes; zero race reports (de-duplicated by outermost pat-go frames) and per-call sequential-result oracles",
          "only schedules that ran are judged; the monitor's own oracle code shares no mutable objects between goroutines",
          "runtime monitoring: Go race detector + per-call result oracles under concurrent stress"),
  "C18": ("exploration", "RSA token-key DER for fixtures and synthetic (N,E) over every modulus byte length 1..300 and selected larger ones against a byte-by-byte reference and the Rust pkS; both forms inverted by UnmarshalTokenKey, legacy form parsed by crypto/x509; key ids of all issuer types equal SHA-256 of the reference serialization, requests carry byte 31, type-3 requests carry SHA-256 of the reference EncapKey encoding",
